@@ -211,7 +211,8 @@ def _param_name(rel, fname, k):
     return toks[parts[k][0]].text
 
 
-def generate():
+def extract():
+    """-> (mods [(url, rust module ident)], out dict(module_defs, local_defs, events))"""
     _cache.clear()
     out = {"module_defs": [], "local_defs": [], "events": []}
     mt = _toks("mod.rs")
@@ -267,6 +268,11 @@ def generate():
     n_f = sum(1 for x in mt[lo:hi] if x.text == "f")
     n_def = sum(1 for e in out["events"] if e[0] == "def" and e[1] == "global:mod.rs:FUNCTIONS")
     need(n_f == 2 + n_def + seen_exposes, "FUNCTIONS: the global map is used in a way the scanner does not know")
+    return mods, out
+
+
+def generate():
+    mods, out = extract()
 
     def frm(fs):
         return "[" + "; ".join(f"({qs(n)}, {'true' if d else 'false'})" for n, d in fs) + "]"
